@@ -34,7 +34,9 @@ RULE = ('case = one symbolic value (typed/untyped x sealed x partial x accessor 
         'metadata/userdata (cloneable or not) before cloning and a history of '
         'set_metadata/set_userdata on one copy, a functor a history of rebind/setattr/del '
         'of its arguments; observed on the other copy: JSON, metadata, userdata, what ITS '
-        'next clone carries; argument sets, is_fully_bound and the call result.')
+        'next clone carries; argument sets, is_fully_bound and the call result; a DNASpec a '
+        'history of set_userdata on its decision points (observed: JSON, userdata). Such a '
+        'case is non-trivial when at least 3 state operations were applied.')
 REQUIRED_COUNTERS = ['clones_checked', 'flag_nodes_compared', 'interference_checks',
                      'identity_nodes_compared', 'primed_clones', 'getter_identity_checks',
                      'derived_interference_checks', 'state_interference_checks']
@@ -405,6 +407,16 @@ def run_functor_op(f, step):
     delattr(f, step['arg'])
 
 
+def spec_op(rng, spec):
+  nodes = [keys for n, keys in TM.nodes_of(spec) if isinstance(n, pg.DNASpec)]
+  return {'op': 'DNASpec.set_userdata', 'at': rng.choice(nodes), 'k': rng.choice(USER_KEYS),
+          'v': rng.randint(0, 99)}
+
+
+def run_spec_op(spec, step):
+  DV.node_at(spec, step['at']).set_userdata(step['k'], step['v'])
+
+
 def state_obs(x, next_via=None):
   """[(part, observation)] of the public state of a DNA / functor, in the order
   in which a difference is attributed."""
@@ -419,6 +431,9 @@ def state_obs(x, next_via=None):
       except Exception as e:  # pylint: disable=broad-except
         nxt = ('raise', type(e).__name__)
       out.append(('next-clone', nxt))
+  elif isinstance(x, pg.DNASpec):
+    out.append(('userdata', repr([(keys, sorted(n.userdata.items()))
+                                  for n, keys in TM.nodes_of(x) if isinstance(n, pg.DNASpec)])))
   elif isinstance(x, pg.Functor):
     sets = tuple(repr(sorted(getattr(x, name))) for name in (
         'specified_args', 'non_default_args', 'default_args', 'bound_args', 'unbound_args'))
@@ -461,10 +476,15 @@ def state_history(ctx, rng, a, clones, label, witness, model_a):
   model_y = model_a.clone() if model_a is not None else None
   trace = []
   for _ in range(rng.randint(3, 8)):
-    step = dna_op(rng, model_y) if kname == 'DNA' else functor_op(rng)
+    if kname == 'DNA':
+      step, run = dna_op(rng, model_y), run_dna_op
+    elif kname == 'DNASpec':
+      step, run = spec_op(rng, y), run_spec_op
+    else:
+      step, run = functor_op(rng), run_functor_op
     trace.append(show_state_step(step))
     try:
-      (run_dna_op if kname == 'DNA' else run_functor_op)(y, step)
+      run(y, step)
     except Exception:  # pylint: disable=broad-except
       c['state_ops_raised'] += 1
     c['state_interference_checks'] += 1
@@ -505,7 +525,7 @@ def run_case(ctx, i):
   primed = prime(ctx, rng, a)
   if primed:
     witness['source'] = primed + ' before cloning'
-  state_a = state_obs(a) if ka in ('DNA', 'Functor') else None
+  state_a = state_obs(a) if ka in ('DNA', 'DNASpec', 'Functor') else None
   clones = []
   for deep, vias in ((True, DEEP_VIAS), (False, SHALLOW_VIAS)):
     via, fn = rng.choice(vias)
@@ -578,12 +598,12 @@ def run_case(ctx, i):
         ctx.violation('clone-schema-' + clause, f'{mode}/{kind(a)}', f'{label} via {via}: {detail}', witness)
     clones.append((mode, via, b))
     ctx.seen('value_kinds', (kind(a), mode, via))
-  if clones and ka in ('DNA', 'Functor'):
+  if clones and ka in ('DNA', 'DNASpec', 'Functor'):
     smp = state_history(ctx, rng, a, clones, label, witness, model_a)
     if i < 2:
       ctx.sample(smp)
     return
-  if not clones or ka == 'DNASpec':
+  if not clones:
     if i < 2:
       ctx.sample({'value': label[:300], 'clones': [(m, v) for m, v, _ in clones]})
     return
